@@ -1,10 +1,15 @@
 (* C12 — Outputs that violate a plugin's declared contract are rejected, not stored.
    This file contains only property theorems, each closed by `exact <lemma>` and followed by
    Print Assumptions.  W = end_window = CHUNK_END_WINDOW, read from strax/chunk.py on every run.
-   Statements that the faithful model refutes on the current tree are kept visible as
-   `Definition C12_full_...`, with `..._refuted` (witness) and `..._partial` next to them. *)
+
+   Two defects found by this property (design_notes/C12.md F1, F2) concern Plugin._fix_output and
+   DownChunkingPlugin._fix_output.  The model carries both code versions (`..._gen fx`, fx = false:
+   before the repair, `pinned`; fx = true: repaired); `REPAIRED_F1F2` says which one /repo has, and
+   the un-suffixed definitions are the model of the current code.  Statements the current code
+   does not satisfy are kept visible as `Definition C12_full_...` with `..._if_repaired`,
+   `..._pinned_refuted` (witness) and `..._partial` next to them. *)
 From SV Require Import Model.Rows Model.Chunk Model.PluginKinds Model.C12Harness Spec.C12MatrixSpec
-  Proof.PluginKindsProof Proof.PluginOutputProof Proof.C12MatrixProof.
+  Proof.PluginKindsProof Proof.PluginOutputProof Proof.C12MatrixProof Proof.C12CurrentProof.
 
 (* ---- Chunk.__init__ ------------------------------------------------------------------------ *)
 
@@ -47,96 +52,121 @@ Theorem C12_continuity_rejects_gap_overlap : forall r cs,
 Proof. exact continuity_rejects_gap_overlap. Qed.
 Print Assumptions C12_continuity_rejects_gap_overlap.
 
-(* ---- Plugin._fix_output, for every plugin declaration and every payload ---------------------- *)
+(* ---- Plugin._fix_output (current code), for every plugin declaration and every payload -------- *)
 
 Theorem C12_bare_wrong_dtype_rejected : forall p dt rows s e d,
   dt <> dtype_for p d -> fix_output_single p (IArr dt rows) (Some (s, e)) d = Err E_WRONG_OUTPUT.
-Proof. exact fix_single_bare_wrong_dtype. Qed.
+Proof. exact (fix_single_bare_wrong_dtype REPAIRED_F1F2). Qed.
 Print Assumptions C12_bare_wrong_dtype_rejected.
 
 Theorem C12_self_chunk_wrong_dtype_rejected : forall p dt label kind s e rows range d,
   dt <> dtype_for p label ->
   fix_output_single p (IMk (dtype_for p label) dt label kind s e rows) range d = Err E_CTOR_DTYPE.
-Proof. exact fix_single_self_chunk_wrong_dtype. Qed.
+Proof. exact (fix_single_self_chunk_wrong_dtype REPAIRED_F1F2). Qed.
 Print Assumptions C12_self_chunk_wrong_dtype_rejected.
 
 Theorem C12_wrong_label_rejected : forall p declared dt label kind s e rows range d,
   label <> d -> is_err (fix_output_single p (IMk declared dt label kind s e rows) range d).
-Proof. exact fix_single_label. Qed.
+Proof. exact (fix_single_label REPAIRED_F1F2). Qed.
 Print Assumptions C12_wrong_label_rejected.
 
 Theorem C12_rows_outside_rejected : forall p rows s e d,
   sorted rows -> (length rows <= end_window)%nat ->
   Exists (fun r => rt r < s \/ re r > e) rows ->
   is_err (fix_output_single p (IArr (dtype_for p d) rows) (Some (s, e)) d).
-Proof. exact fix_single_rows_outside. Qed.
+Proof. exact (fix_single_rows_outside REPAIRED_F1F2). Qed.
 Print Assumptions C12_rows_outside_rejected.
 
 Theorem C12_source_must_return_chunks : forall p i d,
   is_chunk_item i = false -> fix_output_single p i None d = Err E_SRC_NOT_CHUNK.
-Proof. exact fix_single_source_not_chunk. Qed.
+Proof. exact (fix_single_source_not_chunk REPAIRED_F1F2). Qed.
 Print Assumptions C12_source_must_return_chunks.
 
 Theorem C12_multi_output_requires_dict : forall p i range,
   multi_output p = true -> fix_output p (VItem i) range = Err E_NOT_DICT.
-Proof. exact fix_output_multi_requires_dict. Qed.
+Proof. exact (fix_output_multi_requires_dict REPAIRED_F1F2). Qed.
 Print Assumptions C12_multi_output_requires_dict.
 
 Theorem C12_multi_output_requires_every_key : forall p l range d,
   multi_output p = true -> In d (p_provides p) -> assoc d l = None -> is_err (fix_output p (VDict l) range).
-Proof. exact fix_output_multi_missing_key. Qed.
+Proof. exact (fix_output_multi_missing_key REPAIRED_F1F2). Qed.
 Print Assumptions C12_multi_output_requires_every_key.
 
 (* an accepted output carries the promised label, passes the range checks, and has the declared
-   dtype unless it is a chunk the plugin built itself with another dtype argument *)
+   dtype unless it is a chunk the plugin built itself with another dtype argument (F1) *)
 Theorem C12_accepted_output : forall p i range d x,
   fix_output_single p i range d = Ok x ->
   cdtype (xc x) = d /\ range_ok (xc x) /\
   (is_chunk_item i = false -> xdt x = dtype_for p d) /\
-  (forall declared dt label kind s e rows, i = IMk declared dt label kind s e rows -> xdt x = declared /\ dt = declared).
-Proof. exact fix_single_ok_inv. Qed.
+  (forall declared dt label kind s e rows, i = IMk declared dt label kind s e rows -> xdt x = declared /\ dt = declared) /\
+  (REPAIRED_F1F2 = true -> xdt x = dtype_for p d).
+Proof. exact (fix_single_ok_inv REPAIRED_F1F2). Qed.
 Print Assumptions C12_accepted_output.
 
 Theorem C12_accepted_message_labels : forall p v range cs,
   fix_output p v range = Ok cs -> map (fun x => cdtype (xc x)) cs = p_provides p.
-Proof. exact fix_output_ok_labels. Qed.
+Proof. exact (fix_output_ok_labels REPAIRED_F1F2). Qed.
 Print Assumptions C12_accepted_message_labels.
 
-(* full statement: every accepted output has the declared dtype.  Refuted on the current tree
-   (finding F1): _fix_output never compares the dtype of a Chunk it is handed. *)
+(* full statement: every accepted output has the declared dtype *)
 Definition C12_full_fix_output_dtype : Prop :=
   forall p i range d x, fix_output_single p i range d = Ok x -> xdt x = dtype_for p d.
 
-Theorem C12_fix_output_dtype_refuted :
-  exists p i range d x, fix_output_single p i range d = Ok x /\ xdt x <> dtype_for p d.
-Proof. exact fix_output_dtype_refuted. Qed.
-Print Assumptions C12_fix_output_dtype_refuted.
+(* F1: the code before the repair accepts a chunk built around data of another dtype *)
+Theorem C12_fix_output_dtype_pinned_refuted :
+  exists p i range d x, fix_output_single_gen false p i range d = Ok x /\ xdt x <> dtype_for p d.
+Proof. exact fix_output_dtype_pinned_refuted. Qed.
+Print Assumptions C12_fix_output_dtype_pinned_refuted.
 
+(* the repaired code satisfies the full statement *)
+Theorem C12_fix_output_dtype_repaired : forall p i range d x,
+  fix_output_single_gen true p i range d = Ok x -> xdt x = dtype_for p d.
+Proof. exact fix_output_dtype_repaired. Qed.
+Print Assumptions C12_fix_output_dtype_repaired.
+
+Theorem C12_fix_output_dtype_if_repaired : REPAIRED_F1F2 = true -> C12_full_fix_output_dtype.
+Proof. exact fix_output_dtype_if_repaired. Qed.
+Print Assumptions C12_fix_output_dtype_if_repaired.
+
+(* either version: chunks built with the declared dtype (self.chunk) *)
 Theorem C12_fix_output_dtype_partial : forall p i range d x,
   (forall declared dt label kind s e rows, i = IMk declared dt label kind s e rows -> declared = dtype_for p d) ->
   fix_output_single p i range d = Ok x -> xdt x = dtype_for p d.
-Proof. exact fix_output_dtype_partial. Qed.
+Proof. exact (fix_output_dtype_partial REPAIRED_F1F2). Qed.
 Print Assumptions C12_fix_output_dtype_partial.
 
 (* ---- DownChunkingPlugin._fix_output --------------------------------------------------------- *)
 
 Theorem C12_down_requires_generator : forall p v range,
   p_kind p = KDown -> do_compute_out p (PVal v) range = [Err E_NOT_GENERATOR].
-Proof. exact down_requires_generator. Qed.
+Proof. exact (down_requires_generator REPAIRED_F1F2). Qed.
 Print Assumptions C12_down_requires_generator.
 
 Theorem C12_down_requires_chunks : forall p i, is_chunk_item i = false -> is_err (down_one p (VItem i)).
-Proof. exact down_requires_chunks. Qed.
+Proof. exact (down_requires_chunks REPAIRED_F1F2). Qed.
 Print Assumptions C12_down_requires_chunks.
 
-(* full statement: a down-chunking plugin's chunks carry a promised label.  Refuted (finding F2). *)
-Definition C12_full_down_label : Prop :=
-  forall p i x, multi_output p = false -> down_one p (VItem i) = Ok [x] -> In (cdtype (xc x)) (p_provides p).
+(* full statement: a yielded chunk carries a promised label and the declared dtype *)
+Definition C12_full_down_label_dtype : Prop :=
+  forall p i x, down_one p (VItem i) = Ok [x] ->
+    In (cdtype (xc x)) (p_provides p) /\ xdt x = dtype_for p (cdtype (xc x)).
 
-Theorem C12_down_label_refuted :
-  exists p i x, multi_output p = false /\ down_one p (VItem i) = Ok [x] /\ ~ In (cdtype (xc x)) (p_provides p).
-Proof. exact down_label_refuted. Qed.
-Print Assumptions C12_down_label_refuted.
+(* F2: the code before the repair compares neither *)
+Theorem C12_down_label_pinned_refuted :
+  exists p i x, multi_output p = false /\ down_one_gen false p (VItem i) = Ok [x] /\
+                ~ In (cdtype (xc x)) (p_provides p).
+Proof. exact down_label_pinned_refuted. Qed.
+Print Assumptions C12_down_label_pinned_refuted.
+
+Theorem C12_down_label_dtype_repaired : forall p i x,
+  down_one_gen true p (VItem i) = Ok [x] ->
+  In (cdtype (xc x)) (p_provides p) /\ xdt x = dtype_for p (cdtype (xc x)).
+Proof. exact down_label_dtype_repaired. Qed.
+Print Assumptions C12_down_label_dtype_repaired.
+
+Theorem C12_down_label_dtype_if_repaired : REPAIRED_F1F2 = true -> C12_full_down_label_dtype.
+Proof. exact down_label_dtype_if_repaired. Qed.
+Print Assumptions C12_down_label_dtype_if_repaired.
 
 (* ---- the run: savers, continuity check on the target, exception path ------------------------- *)
 
@@ -175,16 +205,7 @@ Definition C12_full_violation_matrix : Prop := forall k vk dv w ov n r pos rechu
   In (n, r) shapes -> (pos < n)%nat -> shape_ok vk n = true ->
   cell_rejected (mkcell k vk dv w ov pos n r rechunk ga) = true.
 
-Theorem C12_violation_matrix_refuted :
-  cell_rejected (mkcell KSource   VK_DTYPE_RAW 0 0 0 0 1 3 false false) = false /\
-  cell_rejected (mkcell KOrdinary VK_DTYPE_RAW 0 0 0 0 1 3 false false) = false /\
-  cell_rejected (mkcell KMulti    VK_DTYPE_RAW 0 0 0 0 1 3 false false) = false /\
-  cell_rejected (mkcell KDown     VK_DTYPE_RAW 0 0 0 0 1 3 false false) = false /\
-  cell_rejected (mkcell KOverlap  VK_DTYPE_RAW 0 0 0 0 1 3 false false) = false /\
-  cell_rejected (mkcell KDown     VK_LABEL     0 0 0 0 1 3 false false) = false.
-Proof. exact violation_matrix_refuted. Qed.
-Print Assumptions C12_violation_matrix_refuted.
-
+(* the current code: every cell that is not one of its escapes (none once REPAIRED_F1F2 = true) *)
 Theorem C12_violation_matrix_partial : forall k vk dv w ov n r pos rechunk ga,
   In vk (applicable_vks k) -> In dv (dvs vk) -> In w (whichs k vk) -> In ov (ovs k vk) ->
   In (n, r) shapes -> (pos < n)%nat -> shape_ok vk n = true ->
@@ -192,6 +213,29 @@ Theorem C12_violation_matrix_partial : forall k vk dv w ov n r pos rechunk ga,
   cell_rejected (mkcell k vk dv w ov pos n r rechunk ga) = true.
 Proof. exact violation_matrix_partial. Qed.
 Print Assumptions C12_violation_matrix_partial.
+
+Theorem C12_violation_matrix_if_repaired : REPAIRED_F1F2 = true -> C12_full_violation_matrix.
+Proof. exact full_violation_matrix_if_repaired. Qed.
+Print Assumptions C12_violation_matrix_if_repaired.
+
+(* the repaired output path satisfies the full matrix *)
+Theorem C12_violation_matrix_repaired : forall k vk dv w ov n r pos rechunk ga,
+  In vk (applicable_vks k) -> In dv (dvs vk) -> In w (whichs k vk) -> In ov (ovs k vk) ->
+  In (n, r) shapes -> (pos < n)%nat -> shape_ok vk n = true ->
+  cell_rejected_gen true (mkcell k vk dv w ov pos n r rechunk ga) = true.
+Proof. exact violation_matrix_repaired. Qed.
+Print Assumptions C12_violation_matrix_repaired.
+
+(* the code before the repairs does not: smallest failing runs *)
+Theorem C12_violation_matrix_pinned_refuted :
+  cell_rejected_gen false (mkcell KSource   VK_DTYPE_RAW 0 0 0 0 1 3 false false) = false /\
+  cell_rejected_gen false (mkcell KOrdinary VK_DTYPE_RAW 0 0 0 0 1 3 false false) = false /\
+  cell_rejected_gen false (mkcell KMulti    VK_DTYPE_RAW 0 0 0 0 1 3 false false) = false /\
+  cell_rejected_gen false (mkcell KDown     VK_DTYPE_RAW 0 0 0 0 1 3 false false) = false /\
+  cell_rejected_gen false (mkcell KOverlap  VK_DTYPE_RAW 0 0 0 0 1 3 false false) = false /\
+  cell_rejected_gen false (mkcell KDown     VK_LABEL     0 0 0 0 1 3 false false) = false.
+Proof. exact violation_matrix_pinned_refuted. Qed.
+Print Assumptions C12_violation_matrix_pinned_refuted.
 
 (* the excluded cells are exactly those with a failing run *)
 Theorem C12_matrix_escapes_exact : forall k vk, In vk (applicable_vks k) ->
